@@ -99,7 +99,8 @@ class ProbeKernel(ModelMixin, TransitionMixin, TuningMixin):
 
     def __init__(self, position_keys, kidx: int, log_len: int, prev_key: str | None = None,
                  needs_history: bool = False, err_table=None, chain_key: str = "chain",
-                 write: bool = True, identifier: str = ""):
+                 write: bool = True, identifier: str = "", warmup_error: int = 0):
+        self.warmup_error = int(warmup_error)     # the (documented) error code end_warmup reports
         self.position_keys = tuple(position_keys)
         self._model = None
         self.kidx = int(kidx)
@@ -219,7 +220,7 @@ class ProbeKernel(ModelMixin, TransitionMixin, TuningMixin):
         else:
             n = jax.tree_util.tree_leaves(tuning_history)[0].shape[0]
         ks, _ = self._rec(kernel_state, "end_warmup", None, prng_key, x1=n)
-        return WarmupOutcome(jnp.asarray(0, jnp.int32), ks)
+        return WarmupOutcome(jnp.asarray(self.warmup_error, jnp.int32), ks)
 
 
 class ProbeKernelB(ProbeKernel):
